@@ -341,6 +341,7 @@ def build_all(flavours, workdir, drivers, pairs=None):
     def one(fl):
         libdir = B.build_lib(fl, workdir)
         B.build_isal_ref(fl, workdir)
+        B.build_shss_ref(fl, workdir)
         bins = {}
         for d in drivers:
             if pairs is not None and (fl, d) not in pairs:
